@@ -4,7 +4,8 @@ Case kinds (all against the real code):
   str   : SigmaString(src): parts, plain form and its re-parse; convert_value_str of a TextQueryBackend
           subclass for each escaping configuration.  Deciding: the emitted literal, read by the target
           language's rules (Lean `decode`/`decodeQuoted`), equals the source's characters and wildcard
-          positions minus filtered ones; the plain form re-parses to the identical value.  The same round trip as the
+          positions minus filtered ones (a literal emitted without quotes is read as a bare word: the language's quote
+          character, unescaped, is a delimiter there too); the plain form re-parses to the identical value.  The same round trip as the
           library itself performs it: the value sent through a replace_string item (both modes: on the plain form, which
           is written and parsed again, and part by part) whose expression matches nothing must come back identical, and
           one that rewrites a plain letter must change that letter only (characters and wildcard positions otherwise kept).
@@ -27,12 +28,15 @@ RULE = ("source strings = all strings up to a length bound over {\\\\, *, ?, \",
         "pattern's alphabet; field names over {a, space, \\\\, ', \", .}; distinct = distinct (kind, source); "
         "non-trivial = contains a backslash, wildcard, quote or filtered character"
         "; escaping configurations incl. quote among the filtered characters and conditional quoting; values obtained by stripping wildcards; regex literals with and without a string layer; field configurations incl. a derived backend class"
-        "; every source string through replace_string items (plain-form mode and part-wise mode; an expression matching nothing, a single-letter rewrite): the plain form written and parsed again by the library")
+        "; every source string through replace_string items (plain-form mode and part-wise mode; an expression matching nothing, a single-letter rewrite): the plain form written and parsed again by the library"
+        "; conditional quoting whose bare-word class contains the quote character (quote only values with white space; str_quote_pattern negated and not), the unquoted literal read by the bare-word reader for which the quote is still a delimiter (Lean decodeBare)"
+        "; field configurations that escape the quote character twice over (escape class containing the quote + field_escape_quote) incl. a non-word class with conditional field quoting (field_quote_pattern)")
 ASSUMPTIONS = [
     "the Sigma escaping rules (backslash escapes a following backslash/wildcard, is literal otherwise) are the specification of the source reading",
     "target-language reading of a literal = greedy token reading (escape, multi-token, single-token, plain); Python's re is the target for the regex form",
     "regex subjects contain no line terminators",
-    "field_escape_pattern is modelled as a character class; str/field quote patterns: always-quote or never-quote configurations only",
+    "field_escape_pattern is modelled as a character class; str/field quote patterns: the quoting decision is an input of the model (taken from decide_string_quoting for values, from the configured pattern applied to the name for fields); an unquoted value must consist of characters of the configuration's bare-word class",
+    "target-language reading of a value emitted without quotes by a backend that has a string quote: token reading as above, and an unescaped quote string at a token boundary is a string delimiter (malformed bare word)",
     "target-language reading of a quoted field name: the escape string makes the next character literal, the first unescaped quote string ends the name (text after it = terminated early)",
     "replace_string is the library's own 'plain form, parsed again' path (sigma/processing/transformations/values.py); its regular expression engine is Python's re",
 ]
@@ -55,7 +59,15 @@ CONFIGS = [
     # the quote character is also filtered (a filtered character is dropped entirely: no escape character may be left behind)
     {"name": "filter-quote", "esc": "\\", "multi": "*", "single": "?", "add": "\\", "filter": '"&', "quote": '"'},
     # conditional quoting: quote unless the plain form is a bare token (str_quote_pattern + negation)
-    {"name": "cond-quote", "esc": "\\", "multi": "*", "single": "?", "add": "\\", "filter": "", "quote": '"', "bare": "A-Za-z0-9_.*?\\\\"},
+    {"name": "cond-quote", "esc": "\\", "multi": "*", "single": "?", "add": "\\", "filter": "", "quote": '"',
+     "qpat": ("^[A-Za-z0-9_.*?\\\\]*$", True), "barecls": "[A-Za-z0-9_.*?\\\\]"},
+    # conditional quoting whose bare-word class CONTAINS the quote character: "quote only values with white space"
+    # (str_quote_pattern that says when to quote, negation off) and "quote unless free of white space" (negation on);
+    # a value with the quote character but no white space is emitted as a bare word, where the quote is still a metacharacter
+    {"name": "cond-ws", "esc": "\\", "multi": "*", "single": "?", "add": "\\", "filter": "", "quote": '"',
+     "qpat": ("^.*\\s", False), "barecls": "\\S"},
+    {"name": "cond-ws-sq", "esc": "\\", "multi": "%", "single": "_", "add": "\\", "filter": "&", "quote": "'",
+     "qpat": ("^\\S*$", True), "barecls": "\\S"},
 ]
 CFG_BY_NAME = {c["name"]: c for c in CONFIGS}
 FIELD_CFGS = [
@@ -68,6 +80,13 @@ FIELD_CFGS = [
     {"name": "plain", "escape": None, "chars": "", "escapeQuote": True, "quote": None, "always": False},
     # a backend class derived from the first one with another quote character, used after its parent in the same process
     {"name": "dq-derived", "escape": "\\", "chars": " \\", "escapeQuote": True, "quote": '"', "always": True, "parent": "q-esc"},
+    # the quote character is escaped by BOTH mechanisms: it is in the escape class and field_escape_quote is set
+    # (a pattern like [\s'] or \W with that quote); exactly one escape string must stand in front of it
+    {"name": "q-in-class", "escape": "\\", "chars": " \\'", "escapeQuote": True, "quote": "'", "always": True},
+    # the same with the class of all non-word characters and conditional quoting (field_quote_pattern ^\w+$, negated:
+    # a name is quoted unless it consists of word characters)
+    {"name": "dq-nonword-cond", "escape": "\\", "chars": " \\'\".", "escapeQuote": True, "quote": '"', "always": False,
+     "qpat": ("^\\w+$", True)},
 ]
 FIELD_ALPHA = ["a", " ", "\\", "'", '"', "."]
 # replace_string items every source string is sent through: (name, regex, replacement, skip_special); "id" = matches nothing
@@ -138,8 +157,9 @@ def backend_for(cfg):
     if cfg["name"] not in _backends:
         attrs = {"str_quote": cfg["quote"], "escape_char": cfg["esc"], "wildcard_multi": cfg["multi"],
                  "wildcard_single": cfg["single"], "add_escaped": cfg["add"], "filter_chars": cfg["filter"],
-                 "str_quote_pattern": re.compile("^[" + cfg["bare"] + "]*$") if cfg.get("bare") else None,
-                 "str_quote_pattern_negation": True, "backend_processing_pipeline": ProcessingPipeline()}
+                 "str_quote_pattern": re.compile(cfg["qpat"][0]) if cfg.get("qpat") else None,
+                 "str_quote_pattern_negation": cfg["qpat"][1] if cfg.get("qpat") else True,
+                 "backend_processing_pipeline": ProcessingPipeline()}
         _backends[cfg["name"]] = type("B_" + re.sub(r"\W", "_", cfg["name"]), (TextQueryTestBackend,), attrs)()
     return _backends[cfg["name"]]
 
@@ -151,13 +171,25 @@ def field_backend_for(cfg):
     if key not in _backends:
         attrs = {"field_escape": cfg["escape"],
                  "field_escape_pattern": re.compile("[" + re.escape(cfg["chars"]) + "]") if cfg["chars"] else None,
-                 "field_escape_quote": cfg["escapeQuote"], "field_quote": cfg["quote"], "field_quote_pattern": None,
+                 "field_escape_quote": cfg["escapeQuote"], "field_quote": cfg["quote"],
+                 "field_quote_pattern": re.compile(cfg["qpat"][0]) if cfg.get("qpat") else None,
+                 "field_quote_pattern_negation": cfg["qpat"][1] if cfg.get("qpat") else True,
                  "backend_processing_pipeline": ProcessingPipeline()}
         base = TextQueryTestBackend
         if cfg.get("parent"):
             base = type(field_backend_for(next(c for c in FIELD_CFGS if c["name"] == cfg["parent"])))
         _backends[key] = type("F_" + re.sub(r"\W", "_", cfg["name"]), (base,), attrs)()
     return _backends[key]
+
+
+def field_quoted(cfg, name):
+    """does the configuration ask for quotes around this name?  (always / never, or field_quote_pattern on the name, negated or not;
+    the conditional configurations escape only characters their pattern does not accept, so the escaped and the original
+    name are classified alike)"""
+    if cfg.get("qpat") and cfg["quote"] is not None:
+        m = bool(re.match(cfg["qpat"][0], name))
+        return (not m) if cfg["qpat"][1] else m
+    return cfg["always"]
 
 
 def replacer(name, rx, rep, skip):
@@ -256,7 +288,7 @@ def run_impl(case):
             for cfg in CONFIGS:
                 b = backend_for(cfg)
                 for how, v in derived:
-                    if how and not (cfg.get("bare") or cfg["name"] in ("std-dq", "noquote")):
+                    if how and not (cfg.get("qpat") or cfg["name"] in ("std-dq", "noquote")):
                         continue
                     try:
                         quoted = b.decide_string_quoting(v)
@@ -339,7 +371,7 @@ def make_request(case, impl, gen):
         return {"op": "field.batch", "name": cps(case["name"]),
                 "items": [{"cfg": {"escape": cps(c["escape"]) if c["escape"] is not None else None, "escapeChars": cps(c["chars"]),
                                    "escapeQuote": c["escapeQuote"], "quote": cps(c["quote"]) if c["quote"] is not None else None},
-                           "quoted": c["always"], "impl": o} for c, o in zip(FIELD_CFGS, impl["outs"])]}
+                           "quoted": field_quoted(c, case["name"]), "impl": o} for c, o in zip(FIELD_CFGS, impl["outs"])]}
 
 
 def show(parts):
@@ -382,7 +414,7 @@ def judge(case, impl, reply):
                 continue
             if isinstance(d["model"], dict):
                 return Verdict("violation", f"{src!r} under {cfg['name']}: rendered as {uncps(r['text'])!r} although the configuration lacks the wildcard ({d['model']['err']})", nt, key, tags=tags)
-            if cfg.get("bare") and not r["quoted"] and re.search("[^" + cfg["bare"] + "]", uncps(r["text"])):
+            if cfg.get("barecls") and not r["quoted"] and any(not re.fullmatch(cfg["barecls"], ch_) for ch_ in uncps(r["text"])):
                 return Verdict("violation", (f"{src!r} under {cfg['name']}: emitted without quotes as {uncps(r['text'])!r} although it contains a character "
                                              f"that ends a bare token (quoting is decided by str_quote_pattern)"), nt, key, tags=tags + (f"cfg:{cfg['name']}",))
             if d["implReadOk"] is not True:
@@ -391,7 +423,9 @@ def judge(case, impl, reply):
                 esc_literal = cfg["esc"] is not None and ord(cfg["esc"]) in [p_ for p_ in impl["parts"] if isinstance(p_, int)]
                 fid = "D7" if (not d["escInSet"] and esc_literal and d["model"] == r["text"]) else None
                 v_ = Verdict("violation", (f"{src!r} under {cfg['name']}: emitted {uncps(r['text'])!r}, which the target reads as "
-                                           f"{show(d['implRead']) if d['implRead'] is not None else 'malformed/terminated early'!r} instead of {show(d['want'])!r}"),
+                                           f"{show(d['implRead']) if d['implRead'] is not None else 'malformed/terminated early'!r} instead of {show(d['want'])!r}"
+                                           + (f" (emitted without quotes: an unescaped {cfg['quote']} inside a bare word is a string delimiter of the target)"
+                                              if (not r["quoted"] and cfg["quote"] and d["implRead"] is None) else "")),
                              nt, key, finding=fid, tags=tags + (f"cfg:{cfg['name']}",))
                 if fid is None:
                     return v_                      # an unclassified violation is reported at once
@@ -456,7 +490,11 @@ def judge(case, impl, reply):
         viol = known = unj = drift = None
         for cfg, r, o in zip(FIELD_CFGS, reply["items"], impl["outs"]):
             ctag = f"fcfg:{cfg['name']}"
-            if not r["ok"]:
+            if cfg.get("qpat") and field_quoted(cfg, src) != (len(o) >= 2 and o[0] == ord(cfg["quote"]) == o[-1]):
+                # the quoting decision itself is not what C05 states: diagnostic only
+                drift = drift or Verdict("drift", f"field {src!r} under {cfg['name']}: rendered {uncps(o)!r}, field_quote_pattern asks for "
+                                                  f"{'quotes' if field_quoted(cfg, src) else 'no quotes'}", nt, key, tags=tags + (ctag,))
+            elif not r["ok"]:
                 # strict reading: a quoted name ends at the first unescaped quote (Lean `readQuotedField`)
                 read = "nothing (the name is terminated early or malformed)" if r["implRead"] is None else repr(uncps(r["implRead"]))
                 what = (f"field {src!r} under {cfg['name']} (field_escape={cfg['escape']!r}, escape class [{cfg['chars']}], field_escape_quote={cfg['escapeQuote']}, "
